@@ -11,6 +11,10 @@ Decided clauses (DESIGN §4 C02):
        out-parameter is the constant 0 (or the pointer is known NULL).
   R2.5 no plaintext on failure: on every exit that may return non-zero, every possibly
        data-dependent write through an output parameter is followed by a constant fill of it.
+  R2.7 (E13) no padding store of the one-time authenticators is overwritten before it is read.
+  R2.8 (E15) inside a loop that walks an input buffer (associated data, ciphertext, message) every read through that buffer
+       advances with the loop: an absorber that re-reads the bytes of its first iteration leaves the later bytes
+       unauthenticated.
 NOT decided: that a changed bit changes the recomputed tag (MAC arithmetic).
 """
 import re
@@ -210,6 +214,12 @@ def run(ctx, chk):
     # wiped by the zero fill makes M and M || 00 authenticate alike.
     from .. import deadstore
     deadstore.dead_store_rule(prog, chk, "R2.7", ("crypto_onetimeauth/",), floor=20)
+    # R2.8: "changing any bit of the associated data / ciphertext makes the call fail" needs every byte to be absorbed: inside a
+    # loop that walks an input buffer no read through that buffer may have a loop-invariant address (E15) - such a read takes
+    # the bytes of the first iteration again and the bytes of the later iterations never reach the authenticator.
+    from .. import loopinv
+    loopinv.stuck_read_rule(prog, chk, "R2.8", ("crypto_aead/", "crypto_onetimeauth/", "crypto_auth/", "crypto_secretbox/",
+                                                "crypto_box/", "crypto_secretstream/"), floor=20 if prog.config == "native" else 5)
 
 
 def analyse(prog, chk, ents, prefix="R2", floors=True):
